@@ -103,6 +103,8 @@ def run(ctx):
             allow = ('cr',)
         elif k < 0.30:
             allow = ('many',)
+        elif k < 0.36:
+            allow = ('long',) if g.r.random() < 0.5 else ('big',)       # a 70 KB / 300 KB line: beyond bufio.MaxScanTokenSize
         worlds.append(build_world(g, 'c01-%d' % i, allow))
     run_suite(ctx, 'match.replay', worlds, known=known)
     findings.report(ctx, 'C01')
